@@ -7,41 +7,59 @@ from lib import flatcorr, framework as fw, hiprun, qconv
 META = {
     'props': 'Props/C17.v',
     'claimed': True,
-    'level_text': ('Proof (partial on one clause): for ALL inputs and ALL water-property functions the Coq model of HIP_RA_X.Calculate '
+    'level_text': ('Proof (partial on two clauses): for ALL inputs and ALL water-property functions the Coq model of HIP_RA_X.Calculate '
                    'satisfies: rock / recoverable-fluid volume are (1-por/100) and (por/100)*factor of area*thickness; stored heat = rock + '
-                   'fluid part (and the closed forms of both); multiplying area (resp. thickness) by any k<>0 multiplies every extensive '
-                   'result by k and leaves per-area/per-volume/percentage (resp. per-volume/percentage) results and the error status '
-                   'unchanged; RecoverableHeat lies in [0.427,0.66] and the UtilEff table regenerated from the source in [0,1], so producible '
-                   '<= available and electric energy <= available; an input written in any unit of the regenerated unit table gives '
-                   'identical results. The cascade clause available <= stored is REFUTED on the pinned tree for in-range inputs with '
-                   'reservoir temperature below rejection temperature (C17_cascade_refuted, known finding) and proved under '
-                   'Tres > Trej with the thermodynamic sign hypotheses on the water properties (C17_cascade_partial). The model is tied '
-                   'to the current source by kernel-evaluated correspondence on real runs fed the CoolProp values the run used; every '
-                   'clause is also evaluated on the implementation outputs by Coq-defined checkers (soundness proved).'),
-    'level_note': ('Trusted: Coq kernel + vm_compute; the Python harness; CoolProp, pint and scipy.interp1d are oracles (values read from the '
-                   'run / tables regenerated from the live registry); float rounding is outside the theorems (tolerance 1e-9, exact for x2 '
-                   'scalings). Reader defects that make listed units unusable (compound units raise, integer life cycle truncates) are '
-                   'reported as findings of the units clause, not modelled.'),
+                   'fluid part (closed forms of both); multiplying area (resp. thickness) by any k<>0 multiplies every extensive result by k '
+                   'and leaves per-area/per-volume/percentage (resp. per-volume/percentage) results and the error status unchanged; '
+                   'RecoverableHeat in [0.427,0.66], the regenerated UtilEff table in [0,1], so producible <= available and electric energy '
+                   '<= available; an input written in any unit of the regenerated unit table gives identical results. REFUTED and restated: '
+                   'available <= stored fails for in-range Tres < Trej (C17_cascade_refuted; proved for Tres > Trej with the thermodynamic '
+                   'sign hypotheses, C17_cascade_partial); the published mass triple is not additive because the fluid mass is overwritten '
+                   'by the produced mass (C17_mass_additivity_refuted; additive iff the rock heat is 0, C17_mass_additivity_partial). '
+                   'Report and client (string model over Model/Fmt): every SUMMARY line renders label, value in its 10.2f / 10.2e / x100 '
+                   'format and unit, and HipRaResult parses it back to exactly that label, printed value and unit, for every value and every '
+                   'label/unit regenerated from the source (C17_report_line_parses, C17_report_states_results/_inputs). main() swallowing an '
+                   'exception of Calculate is modelled (published): porosity 100, area 0, T > 600 C raise (proved), and what is then '
+                   'printed still satisfies the volume, additivity and cascade clauses (C17_partial_report_*): the partial report is '
+                   'outside the property (zeros without an error status violate no clause of C17). Legacy hip_ra: the shared part of the '
+                   'method (volume, fluid mass, heat of the volume, exergy) is tied to the same model, the rest documented as different.'),
+    'level_note': ('Trusted: Coq kernel + vm_compute; the Python harness; CoolProp, pint, scipy.interp1d / numpy.interp are oracles (values read '
+                   'from the run / tables regenerated from the live registry); float rounding is outside the theorems (1e-9, exact for x2 '
+                   'scalings); Python re and float() are modelled for the shapes a report contains (one line at a time; [-]d+[.d*] and '
+                   'd[.ddd]e+-dd tokens) and tied to HipRaResult on every report. Reader defects that make listed units unusable are findings.'),
     'technique': 'Coq proof about an executable Gallina model + kernel-evaluated correspondence with the implementation',
     'rule': ('in-range HIP-RA-X configurations drawn from one PRNG (temperatures incl. knots/thresholds of the efficiency tables, Tres<Trej, '
-             'Tres=Trej, >600 C; porosity/area/thickness incl. boundaries; optional density, heat capacity, depth, pressure, recovery factors), '
-             'each run through the real read_parameters/Calculate/PrintOutputs; the model is evaluated by vm_compute on the values Calculate '
-             'started from and the CoolProp values it obtained, compared in Coq at 1e-9; scaling pairs (x2 exact, xk) and unit variants (every '
-             'row of the regenerated unit table) are run on the real code and judged by Coq checkers; non-trivial = distinct branch signature '
-             '(derived/provided depth, pressure, density, heat capacity; RecoverableHeat branch; UtilEff segment; error kind)'),
+             'Tres=Trej, >600 C; porosity/area/thickness incl. boundaries 0 and 100; optional density, heat capacity, depth, pressure, recovery '
+             'factors), each run through the real read_parameters/Calculate/PrintOutputs/HipRaResult; the model is evaluated by vm_compute on '
+             'the values Calculate started from and the CoolProp values it obtained, compared in Coq at 1e-9 (results, or the partially '
+             'assigned outputs after an exception); both report sections are compared character for character with the string model and the '
+             'client parse with the model parser; scaling pairs (x2 exact, xk) and unit variants (every row of the regenerated unit table) '
+             'are run on the real code and judged by Coq checkers; legacy hip_ra runs against the common part; non-trivial = distinct branch '
+             'signature (derived/provided depth, pressure, density, heat capacity; RecoverableHeat branch; UtilEff segment; error site)'),
     'trusted_base': ['Coq 8.16.1 kernel + vm_compute (no native_compute)',
                      'all C17 theorems: Closed under the global context (no axioms)',
-                     'hand-written model coq/Model/HipRa.v tied to hip_ra_x.HIP_RA_X.Calculate, GeoPHIRESUtils.RecoverableHeat/UtilEff_func by '
-                     'correspondence evaluated in the kernel (tools/props/C17.py, tools/lib/hiprun.py, tools/gen/hip_tables.py: unverified Python)',
-                     'coq/Gen/HipTables.v regenerated from GeoPHIRESUtils._T/_UtilEff, Units.py and the live pint registry on every run'],
+                     'hand-written models coq/Model/HipRa.v, coq/Model/HipReport.v (number formatting: coq/Model/Fmt.v of C09) tied to '
+                     'hip_ra_x.HIP_RA_X.Calculate/PrintOutputs, hip_ra_x.main, hip_ra.HipRaResult, GeoPHIRESUtils.RecoverableHeat/UtilEff_func '
+                     'by correspondence evaluated in the kernel (tools/props/C17.py, tools/lib/hiprun.py, tools/gen/hip_tables.py: unverified Python)',
+                     'coq/Gen/HipTables.v regenerated from GeoPHIRESUtils._T/_UtilEff, Units.py, the live pint registry and the live parameter '
+                     'names/units on every run'],
     'modelled': ['CoolProp water density / heat capacity / enthalpy / entropy (arbitrary functions in the theorems, run values in the tie)',
                  'pint unit conversion (affine map regenerated from the live registry)', 'scipy interp1d (linear, searchsorted-left segment)',
-                 'Python float ZeroDivisionError / ValueError as error codes'],
+                 'Python float ZeroDivisionError / ValueError as error codes; main() catching them and printing',
+                 'CPython float formatting (Model/Fmt.v), re.findall of HipRaResult one line at a time, float() of report tokens'],
     'assumptions': ['floating-point rounding is not modelled (outputs compared at relative 1e-9; x2 scalings exactly)',
                     'C17_cascade_partial assumes of the water properties: h(Tres,P) > h(Trej,P), s(Tres,P) >= s(Trej,P), exergy >= 0, density >= 0 '
                     '(checked on every run as data)',
-                    'main() swallows an exception of Calculate and prints the partially computed outputs; such runs are modelled as errors'],
-    'fingerprint': [('src/hip_ra_x/hip_ra_x.py', 'HIP_RA_X.Calculate'), ('src/geophires_x/GeoPHIRESUtils.py', 'RecoverableHeat'),
+                    'an exception raised inside CoolProp itself (e.g. pressure 0) is a further error site that is not modelled (such runs are counted as rejected)',
+                    'a 10.2e field is proved to parse back to the printed digits (sci_shown); that the printed digits are the value rounded to 3 '
+                    'significant digits rests on Fmt.sig_round / ilog10 (C09) and on the character-for-character tie with the real report',
+                    'legacy hip_ra: recovery factor (qWH/qR with qWH = m*(h - T_K)), available/producible heat and electricity use other formulas, '
+                    'np.interp clamps instead of raising, the thresholds of its RecoverableHeat are strict, its UtilEff table stops at 373.946 C: '
+                    'only volume, fluid mass, heat of the volume, exergy, the report lines and the two helpers away from their differences are tied'],
+    'fingerprint': [('src/hip_ra_x/hip_ra_x.py', 'HIP_RA_X.Calculate'), ('src/hip_ra_x/hip_ra_x.py', 'HIP_RA_X.PrintOutputs'),
+                    ('src/hip_ra_x/hip_ra_x.py', 'main'), ('src/hip_ra/__init__.py', 'HipRaResult._parse_fields'),
+                    ('src/hip_ra/HIP_RA.py', 'HIP_RA.Calculate'),
+                    ('src/geophires_x/GeoPHIRESUtils.py', 'RecoverableHeat'),
                     ('src/geophires_x/GeoPHIRESUtils.py', 'UtilEff_func'), ('src/geophires_x/GeoPHIRESUtils.py', 'static_pressure_MPa')],
 }
 GENERATORS = (hip_tables.gen_hip_tables,)
@@ -494,7 +512,7 @@ def part_report(ctx, labelled, results):
     """observe_at: the two SUMMARY sections of the report are, character for character, the string model applied to the
     values the run holds (also for the partial report main() prints after an exception), and HipRaResult's parse of the
     report is the model parser's."""
-    terms, meta, budget = [], [], ctx.n(170, 100000)
+    terms, meta, budget = [], [], ctx.n(80, 100000)
     for (label, text), r in zip(labelled, results):
         if r.get('read_error') or (len(meta) >= 3 * budget and not r['calc_error']):
             continue
@@ -530,6 +548,53 @@ def part_report(ctx, labelled, results):
     for b in bad[:6]:
         key, label, text = meta[b]
         ctx.violate('corr', key, what[key] + f' ({label})', inp={'kind': 'report', 'text': text})
+
+
+def part_legacy(ctx, texts=None):
+    """legacy src/hip_ra/HIP_RA.py: the quantities its method shares with HIP-RA-X against the same Coq model, its
+    report lines against the same string model, its efficiency helpers against the HIP-RA-X ones where they coincide."""
+    rnd, cases, terms, meta, helper = ctx.rng, [], [], [], []
+    for k in range(len(texts) if texts is not None else ctx.n(16, 500)):
+        tres = f'{rnd.uniform(60, 370):.1f}'
+        cfg = {'Reservoir Temperature': tres, 'Rejection Temperature': f'{rnd.uniform(5, min(195.0, float(tres) - 5)):.1f}',
+               'Formation Porosity': f'{rnd.uniform(1, 40):.2f}', 'Reservoir Area': f'{rnd.uniform(1, 900):.2f}',
+               'Reservoir Thickness': f'{rnd.uniform(0.05, 5):.3f}', 'Reservoir Life Cycle': str(rnd.randint(2, 60))}
+        if rnd.random() < 0.5:
+            cfg['Reservoir Heat Capacity'] = f'{rnd.uniform(1e12, 5e12):.3e}'
+        if rnd.random() < 0.4:
+            cfg['Density Of Water'] = f'{rnd.uniform(7e11, 1.05e12):.3e}'
+        text = texts[k] if texts is not None else text_of(cfg)
+        r = hiprun.run_legacy(text, str(ctx.scratch))
+        if r['error']:
+            ctx.count('legacy-hip-ra', rejected=1)
+            continue
+        o = [fx(h) for h in r['outs']]
+        if fx(r['TrejK']) != fx(r['inputs'][1]) + F('273.15') and abs(float(fx(r['TrejK']) - fx(r['inputs'][1])) - 273.15) > 1e-9:
+            continue
+        cases.append({'flat': [qconv.sig15(fx(h)) for h in r['inputs'][:7]] + [fx(h) for h in r['inputs'][7:]],
+                      'impl': ('V', [o[1], o[3], o[2], o[4]]), 'desc': {'label': f'legacy:{k}', 'text': text, 'program': 'hip_ra'},
+                      'nontrivial': ('legacy', k % 53)})
+        names = '[' + '; '.join(f'(({qconv.coq_bytes(n)})%string, ({qconv.coq_bytes(u)})%string)' for n, u in r['names']) + ']'
+        lines = [x for x in r['report'].split('\n') if ':' in x]
+        terms.append(f'String.eqb (section_text legacy_rows {names} {_fvals(r["outs"])}) '
+                     f'({qconv.coq_bytes("".join(x + chr(10) for x in lines))})%string')
+        meta.append(text)
+        t = float.fromhex(r['inputs'][0])
+        helper.append({'flat': [F(t)], 'impl': ('V', [fx(r['helpers']['util_eff'])]), 'desc': {'fn': 'hip_ra._UtilEff_func', 'T': t},
+                       'nontrivial': ('lutil', int(t // 20))})
+        if t != 90.0 and t != 150.0:      # the legacy thresholds are strict (< 90, > 150): the two functions differ there
+            helper.append({'flat': [F(t)], 'impl': ('V', [fx(r['helpers']['recoverable'])]),
+                           'desc': {'fn': 'hip_ra._RecoverableHeat', 'T': t}, 'nontrivial': ('lrec', int(t // 20)), 'rec': True})
+    kw = dict(kind='corr', key_of=lambda c: 'legacy:model-differs:' + c['desc'].get('fn', 'common'))
+    flatcorr.run(ctx, 'legacy-hip-ra-common', RREQ, 'run_legacy_common', TOL, cases,
+                 what='legacy HIP_RA: volume / fluid mass / heat of the volume / exergy differ from the common part of the Coq model', **kw)
+    flatcorr.run(ctx, 'legacy-helpers', REQ, 'run_util_eff', F(1, 10 ** 12), [c for c in helper if not c.get('rec')], **kw)
+    flatcorr.run(ctx, 'legacy-helpers', REQ, 'run_recoverable', F(1, 10 ** 12), [c for c in helper if c.get('rec')], **kw)
+    bad = fw.kernel_bools(ctx, 'legacy_report', RREQ, terms, shard=max(8, len(terms) // 32 + 1))
+    ctx.count('legacy-report-text', evaluations=len(terms))
+    for b in bad[:3]:
+        ctx.violate('corr', 'legacy:report-text', 'legacy HIP_RA report lines differ from the string model section_text legacy_rows',
+                    inp={'kind': 'legacy', 'text': meta[b]})
 
 
 def part_client(ctx, labelled, results_by_text):
@@ -571,7 +636,7 @@ def correspondence(ctx, proofs_ok=True):
     def mark(name):
         marks.append(f'{name} {time.time() - t0:.0f}s')
 
-    cfgs = configs(ctx, ctx.n(420, 6000))
+    cfgs = configs(ctx, ctx.n(300, 6000))
     labelled = corpus_cases() + [(f'{style}:{k}', text_of(cfg)) for k, (style, cfg) in enumerate(cfgs)]
     results = hiprun.run_many(ctx, [t for _, t in labelled], want_report=True)
     mark('runs')
@@ -583,12 +648,17 @@ def correspondence(ctx, proofs_ok=True):
     part_ranges(ctx)
     mark('report+helpers+ranges')
     normal = [(s, c) for s, c in cfgs if s != 'edge']
-    part_scaling(ctx, cfgs[:ctx.n(110, 1500)])
+    part_scaling(ctx, cfgs[:ctx.n(80, 1500)])
     mark('scaling')
     part_units(ctx, normal[:ctx.n(6, 60)], unit_table)
     mark('units')
     part_client(ctx, labelled, by_text)
-    mark('client')
+    part_legacy(ctx)
+    mark('client+legacy')
+    ctx.note('partial report (main() prints after Calculate raised): outside the property - on every such run the printed figures '
+             'satisfy the volume, additivity, cascade and scaling checkers (and C17_partial_report_additive/_cascade prove it of the '
+             'model); observation only: the report carries no error status and e.g. for T > 600 C prints a non-zero producible heat next '
+             'to zero electricity and zero heat per unit area')
     ctx.note('cumulative wall time after each part: ' + ', '.join(marks))
 
 
@@ -622,6 +692,14 @@ def replay(ctx, data):
     if text is None:
         print('replay: nothing to re-execute (', data.get('what'), ')')
         return 1
+    if kind == 'legacy' or (inp.get('desc') or {}).get('program') == 'hip_ra':
+        part_legacy(ctx, [text])
+        print('legacy hip_ra on this input:', [v.key for v in ctx.violations] or 'agrees with the common model and the report string model')
+        return 1 if ctx.violations else 0
+    if kind == 'report':
+        part_report(ctx, [('replay', text)], [hiprun.run_case(text, str(ctx.scratch))])
+        print('input:\n' + text + 'report / client parse vs string model:', [v.key for v in ctx.violations] or 'agree')
+        return 1 if ctx.violations else 0
     if (inp.get('desc') or {}).get('fn'):
         part_helpers(ctx)
         bad = [v for v in ctx.violations]
@@ -662,6 +740,9 @@ def replay(ctx, data):
         print('run not comparable:', a['skip'])
         return 1
     failing = fw.kernel_cases(ctx, 'replay', REQ, 'run_hip', TOL, [(a['flat'], a['impl'])])
+    if a['error']:
+        failing += fw.kernel_cases(ctx, 'replay_partial', RREQ, 'run_published', TOL, [(a['flat'], ('V', a['outs']))])
+        print('Calculate raised', a['error'], '- main() goes on to print the partially assigned outputs (model: published)')
     print('implementation:', r1['calc_error'] or {k: float.fromhex(h) for k, h in zip(hiprun.OUT_ATTRS, r1['outs'])})
     print('model hip_calc agrees with the implementation:', not failing)
     viol = False
@@ -670,7 +751,5 @@ def replay(ctx, data):
         for i, cl in enumerate(CLAUSES):
             print(f'  clause {cl}:', 'FAILS' if i in bad else 'holds')
         viol = bool(bad)
-    if kind == 'report' or kind == 'client':
-        print('(report/client comparison: re-run ./check C17 for the full verdict)')
     print('property', 'VIOLATED' if viol else 'holds', 'on this input;', 'model tie', 'BROKEN' if failing else 'intact')
     return 1 if (viol or failing) else 0
